@@ -57,15 +57,44 @@ func anyRouter(*http.Request, *types.Context) bool { return true }
 // AndMatcher 按顺序符合每一个要求
 //
 // 前一个对象返回的实例将作为下一个对象的输入参数。
+//
+// 如果某一个对象不匹配，那么之前的对象对路径以及参数所作的修改都将被撤消。
 func AndMatcher(m ...Matcher) Matcher {
 	return MatcherFunc(func(r *http.Request, ctx *types.Context) bool {
+		path := r.URL.Path
+		ps := cloneParams(ctx)
 		for _, mm := range m {
 			if !mm.Match(r, ctx) {
+				r.URL.Path = path
+				restoreParams(ctx, ps)
 				return false
 			}
 		}
 		return true
 	})
+}
+
+// 复制 ctx 中的所有参数
+func cloneParams(ctx *types.Context) map[string]string {
+	if ctx.Count() == 0 {
+		return nil
+	}
+
+	ps := make(map[string]string, ctx.Count())
+	ctx.Range(func(k, v string) { ps[k] = v })
+	return ps
+}
+
+// 将 ctx 中的参数恢复成 ps 的内容
+func restoreParams(ctx *types.Context, ps map[string]string) {
+	ctx.Range(func(k, _ string) {
+		if _, found := ps[k]; !found {
+			ctx.Delete(k)
+		}
+	})
+	for k, v := range ps {
+		ctx.Set(k, v)
+	}
 }
 
 // OrMatcher 仅需符合一个要求
